@@ -19,19 +19,23 @@ vars == <<case, st, H>>
 C == Cases[case]
 
 Init == /\ case \in CaseLo..CaseHi
-        /\ st = InitMachine(FALSE, Cases[case].nsubj, Cases[case].nbeh, Cases[case].nhotc)
+        /\ st = InitMachine(FALSE, Cases[case].nsubj, Cases[case].nbeh, Cases[case].nhotc, Cases[case].lo, Cases[case].hi)
         /\ H = <<>>
 
 NPre == Len(C.pre)
 MaxLen == NPre + C.L
 
-(* handles that exist and have not been consumed by unsubscribe *)
-RECURSIVE NSubs(_), Unsubbed(_, _)
-NSubs(h) == IF h = <<>> THEN 0 ELSE (IF Head(h).s.k = "sub" THEN 1 ELSE 0) + NSubs(Tail(h))
-Unsubbed(h, a) == IF h = <<>> THEN FALSE ELSE (Head(h).s.k = "unsub" /\ Head(h).s.a = a) \/ Unsubbed(Tail(h), a)
+(* handles are numbered in the order of the stimuli that create them *)
+RECURSIVE NHandles(_), Consumed(_, _), Did(_, _)
+NHandles(h) == IF h = <<>> THEN 0 ELSE (IF Head(h).s.k \in {"sub", "connect", "mnew"} THEN 1 ELSE 0) + NHandles(Tail(h))
+Consumed(h, a) == IF h = <<>> THEN FALSE
+                  ELSE (Head(h).s.k = "unsub" /\ Head(h).s.a = a) \/ (Head(h).s.k = "mappend" /\ Head(h).s.b = a) \/ Consumed(Tail(h), a)
+Did(h, k) == IF h = <<>> THEN FALSE ELSE Head(h).s.k = k \/ Did(Tail(h), k)
 
 Allowed(s) ==
-  CASE s.k \in {"unsub", "closed"} -> s.a <= NSubs(H) /\ ~Unsubbed(H, s.a)
+  CASE s.k \in {"unsub", "closed"} -> s.a <= NHandles(H) /\ ~Consumed(H, s.a)
+    [] s.k = "mappend" -> s.a <= NHandles(H) /\ s.b <= NHandles(H) /\ s.a # s.b /\ ~Consumed(H, s.b)
+    [] s.k = "connect" -> ~Did(H, "connect")
     [] OTHER -> TRUE
 
 Do(s) ==
@@ -41,7 +45,7 @@ Do(s) ==
   IN /\ st' = st1
      /\ H' = H1
      /\ UNCHANGED case
-     /\ leaf => PrintT(ToJson([c |-> case, bad |-> MonRun(Mon0, H1, C.checks), steps |-> H1]))
+     /\ leaf => PrintT(ToJson([c |-> case, bad |-> MonRun(Mon0, H1, C), steps |-> H1]))
 
 Next == /\ st.fault = ""
         /\ Len(H) < MaxLen
